@@ -9,7 +9,7 @@ package main
 //	'J' JSON message: ready / cls (newly interned error classes) / done
 //	'K' chunk of records: uvarint unit, uvarint first item, uvarint number of
 //	    items, 8 bytes running FNV-1a of all inputs of the unit up to the end of
-//	    the chunk, then per item and per target of the unit one record:
+//	    the chunk, then per item uvarint len(input) and per target of the unit one record:
 //	      uvarint code: 0 = ok, followed by uvarint len(rest), the 16-byte digest and, when the
 //	                        result type of the target is a struct with n exported fields, a bitmap
 //	                        of ceil(n/8) bytes (bit set = field holds its zero value) and a 4-byte
@@ -319,6 +319,7 @@ func (w *worker) runUnit(uid int) {
 			return false
 		}
 		res.Items++
+		putU(uint64(len(in))) // per item: input length (the parent keeps the smallest inputs as representatives)
 		var tbs []byte
 		tbsDone := false
 		for _, ti := range u.targets {
